@@ -7,6 +7,7 @@
 import Gzx.Gen.C03Tables
 import Gzx.Model.OneD
 import Gzx.Proofs.UpceanRead
+import Gzx.Proofs.OneDCodabar
 namespace Gzx.Obligations.C03
 open Gzx Gzx.OneD
 
@@ -119,5 +120,9 @@ theorem gen_upcean_wf_read : WFUpcEan genUpcEanTables = true := by decide +kerne
 theorem gen_upcean_guard_widths :
     OneD.sumL genUpcEanTables.startEnd = 3 ∧ OneD.sumL (endGuardOf genUpcEanTables .ean13) = 3 ∧
     OneD.sumL (endGuardOf genUpcEanTables .upce) = 6 := by decide
+
+/-- the hypotheses of `codabar_read_write` for the table /repo has now (alphabet: `gen_codabar_is_standard`) -/
+theorem gen_codabar_wf_read :
+    WFCodabar { refTables with codabarEnc := natList Gen.C03Tables.codabarEncodings } = true := by decide
 
 end Gzx.Obligations.C03
